@@ -801,3 +801,29 @@ func VF_C17_keys_after_writes() {
 		vfAssert(live[string(e.b)], "keys-after-writes-only-live-keys")
 	}
 }
+
+// KEYS never lists a key whose deadline has been reached, whatever the pattern (also the patterns an
+// implementation might special-case: "*", "**", an exact name)
+func VF_C17_keys_expired() {
+	m := hNewDb(2)
+	now := vfClockNow()
+	hExec(m, bs("set"), bs("live"), bs("v"))
+	hExec(m, bs("set"), bs("gone"), bs("v"))
+	delta := vfInt64("delta")
+	vfAssume(delta >= -1000 && delta <= 0)
+	vfAssert(c06Install(m, "gone", now+delta, true), "keys-expired-setup")
+	pat := [][]byte{bs("*"), bs("**"), bs("gone"), bs("g*"), bs("?one"), bs("l?v*"), bs("*e")}[vfChoice("pat", 7)]
+	got := hExec(m, bs("keys"), pat)
+	vfAssert(got.k == rArr, "keys-expired-reply-kind")
+	for _, e := range got.a {
+		vfAssert(string(e.b) != "gone", "keys-lists-an-expired-key")
+	}
+	wantLive := c01Glob(string(pat), "live")
+	found := false
+	for _, e := range got.a {
+		if string(e.b) == "live" {
+			found = true
+		}
+	}
+	vfAssert(found == wantLive, "keys-expired-live-key-listing")
+}
